@@ -63,8 +63,7 @@ unsafe extern "C" fn vm_execute_closure(rt: *mut c_void, closure_handle: u64) ->
     let machine = unsafe { &mut *(rt as *mut Machine) };
     let closure_idx =
         unsafe { std::mem::transmute_copy::<u64, super::vm::ClosureIdx>(&closure_handle) };
-    let closure = machine.get_closure(closure_idx);
-    machine.execute(closure.fn_proto_pos, Some(closure_idx));
+    machine.execute_closure_from_host(closure_idx);
     machine.drop_closure(closure_idx);
     0
 }
